@@ -197,6 +197,20 @@ FromCache(slot, i, kind, inboxes, me) ==
          [] kind = "cm"   -> \E p \in Range(x.commit) : p.from = i - 1 /\ p.v = slot.v /\ p.s = slot.s /\ p.b = slot.b
          [] kind = "pc"   -> \E p \in Range(x.preCommit) : p.from = i - 1 /\ p.v = slot.v /\ p.s = slot.s /\ p.b = slot.b
          [] kind = "cv"   -> \E p \in Range(x.chViews) : p.from = i - 1 /\ p.nv = slot.nv
+\* payloads cached for a height the node has not reached yet stay cached ("payloads received early for the new height are taken
+\* into account" needs them to survive until then); only Start begins with an empty cache
+CacheKeeps(e, pre) ==
+  (pre.started /\ e.post.started /\ e.call # "Start") =>
+     \A x \in Range(pre.cache) : x.h > e.post.h =>
+        \E y \in Range(e.post.cache) : /\ y.h = x.h /\ Len(y.prepare) >= Len(x.prepare) /\ Len(y.chViews) >= Len(x.chViews)
+                                        /\ Len(y.preCommit) >= Len(x.preCommit) /\ Len(y.commit) >= Len(x.commit)
+\* ... and are used: a view-0 proposal of the new height's primary that was waiting in the cache is stored by Reset
+EarlyUsedT(e, pre) ==
+  (pre.started /\ e.post.started /\ e.call = "Reset" /\ e.post.v = 0) =>
+     \A x \in PreInbox(pre, e.post.h) : \A p \in Range(x.prepare) :
+        (p.t = "PrepareRequest" /\ p.v = 0 /\ p.from = e.post.primary /\ p.from # e.post.me
+           /\ ~\E j \in Cbs(e, "VerifyPrepareRequest") : ~e.cb[j].ok)
+        => e.post.prep[p.from + 1].k = "req"
 CleanReset(e, pre) ==
   LET s == e.post  inb == PreInbox(pre, e.post.h) IN
     /\ s.h = e.ledger.height + 1 /\ s.n = e.ledger.nvals /\ s.vals = e.ledger.vals /\ s.me = e.ledger.myIndex
@@ -475,6 +489,8 @@ StepViolations(e, pre, cfg) ==
           \cup P("C04", "ViewEvidence", ViewEvidence(e.post))
           \cup P("C05", "Quiescent", Quiescent(e, pre))
           \cup P("C05", "QuietAfterBlock", QuietAfterBlock(e))
+          \cup P("C05", "CacheKeeps", CacheKeeps(e, pre))
+          \cup P("C05", "EarlyUsedT", EarlyUsedT(e, pre))
           \cup ( IF e.call \in {"Start", "Reset"} THEN P("C05", "CleanReset", CleanReset(e, pre)) ELSE {} )
           \cup P("C06", "PrimaryOK", PrimaryOK(e.post))
           \cup P("C07", "BlockAfterPre", BlockAfterPre(e, pre))
